@@ -132,6 +132,13 @@ TEXT["C19"] = {
     "design_ref": "DESIGN.md section 3, C19",
 }
 
+TEXT["C11"] = {
+    "technique": "property-based testing (rapid) over virtual file trees and loader configurations; differential against a reference composition, recording loaders, canary files",
+    "text": "Virtual trees of up to 8 files (equal base names in different directories), 1-3 recording loaders with overlapping names and different contents, and acyclic reference graphs over include (static/lazy, with, only, if_exists), extends, import, ssi plain and parsed with names written rooted, relative, with .. and with detours, including names no loader serves. The output is compared with a reference composition (first loader wins, relative to the referring file, missing = error or nothing with if_exists, only hides includer variables, rooted literal = rooted computed); the loaders' Get logs must contain no name outside the referenced set, everything used must have been fetched through a loader, and the text of canary files at the same relative paths in the working directory must never appear.",
+    "note": "Trusted: the recording loaders and the reference composer c11Ref. File-system reads that do not surface in output or errors would go unnoticed.",
+    "design_ref": "DESIGN.md section 3, C11",
+}
+
 PENDING_REASON = "check not built yet in this build phase (DESIGN.md section 3 describes the planned PBT check); will be claimed once its quick tier is silent on the unchanged tree and kills its mutants"
 
 
